@@ -132,9 +132,12 @@ Plan shrink_plan(const PropCfg &cfg, const Plan &plan, const std::string &prop, 
     try_world([](Plan &q) { q.w.k.reoccupy_num = 0; });
     try_world([](Plan &q) { q.w.k.pid_reuse = 0; });
     try_world([](Plan &q) { q.w.k.zombie_gap = 0; });
+    try_world([](Plan &q) { q.w.k.core_dumps = 0; });
+    try_world([](Plan &q) { q.w.k.clock_step_at_ms = -1; q.w.k.clock_step_ms = 0; });
     try_world([](Plan &q) { q.w.k.pipe_cap = 65536; });
     try_world([](Plan &q) { q.w.extra.clear(); });
     try_world([](Plan &q) { q.w.low_fds = 7; });
+    try_world([](Plan &q) { q.w.sigpipe = 0; });
     try_world([](Plan &q) { q.w.mask = 0; q.w.ignored.clear(); q.w.handled.clear(); });
     try_world([](Plan &q) { q.w.cwd_depth = 1; q.w.cwd_comp = 1; });
     try_world([](Plan &q) { q.w.parent_env = { "PATH=/bin" }; });
